@@ -30,8 +30,8 @@ Definition extract_code_block_start (line : text) : option (nat * text * text) :
   | [] => if Nat.eqb n 3 then Some (3%nat, [], []) else None        (* only exactly ``` *)
   | _ => if Nat.ltb n 3 then None
          else match split_at_brace rest with
-              | (lang, Some cfg) => Some (n, trim_end lang, cfg)
-              | (lang, None) => Some (n, lang, [])
+              | (lang, Some cfg) => Some (n, trim_end lang, trim_end cfg)
+              | (lang, None) => Some (n, trim_end lang, [])
               end
   end.
 Definition closes (n : nat) (line : text) : bool := Nat.leb n (count_bt line).
